@@ -68,7 +68,7 @@ def Obj.construct (r : K → K) (kind : Kind) (p : ND K) : Obj K := ⟨kind, p, 
 /-- the operations of the histories in C11 -/
 inductive ObjOp (K : Type)
   | copy
-  | apply (A : ND K)
+  | apply (A AinvT : ND K)
   | reshape (s : List ℕ)
   | flatten
   | index (k : ℕ)
@@ -92,7 +92,7 @@ stack / concatenate, `IndexError`). -/
 def Obj.step (r : K → K) (X : Obj K) : ObjOp K → Except String (Obj K)
   | .copy => .ok X                                 -- `Cls(obj)`: `set(obj.proj_data, aux_data=obj.aux_data)`
   | .astype => .ok X                               -- same values, other packaging
-  | .apply A => X.apply A .elementwise             -- `A @ obj`
+  | .apply A AinvT => X.apply A AinvT .elementwise -- `A @ obj`
   | .reshape s =>                                  -- `obj.reshape(s)`: every block reshaped, aux passed on
     match X.proj.reshape (s ++ X.proj.shape.drop (X.proj.shape.length - X.kind.unitNdims)) with
     | .error e => .error e
@@ -230,7 +230,7 @@ metric (segments, tangent vectors); `stack` / `combine` with objects of the same
 satisfy `Inv` themselves.  (Independent of the current state: a matrix of the wrong size
 makes the step fail with numpy's `ValueError`.) -/
 def OpOk (r : K → K) (kind : Kind) : ObjOp K → Prop
-  | .apply A => ∃ n, A.shape = [n, n] ∧
+  | .apply A _ => ∃ n, A.shape = [n, n] ∧
       (kind = .segment ∨ kind = .tangent → IsIso (minkJ n) (matAt A n n []))
   | .stack others => ∀ Y ∈ others, Y.kind = kind ∧ Inv r Y
   | .combine others => ∀ Y ∈ others, Y.kind = kind ∧ Inv r Y
